@@ -141,6 +141,44 @@ class ndarray:
 
     __hash__ = None
 
+    # -- mask algebra / method forms of the module functions (a refactoring may use either spelling)
+    def __invert__(self):
+        return ndarray([not x for x in self._a], dtype=bool)
+
+    def __and__(self, o):
+        return self._bin(o, lambda x, y: bool(x) and bool(y))
+
+    def __or__(self, o):
+        return self._bin(o, lambda x, y: bool(x) or bool(y))
+
+    def __neg__(self):
+        return ndarray([-_num(x) for x in self._a], dtype=self.dtype)
+
+    def __rmul__(self, o):
+        return self.__mul__(o)
+
+    def __radd__(self, o):
+        return self.__add__(o)
+
+    def any(self):
+        return any(self)
+
+    def all(self):
+        return all(self)
+
+    def astype(self, dtype):
+        return ndarray([_cast(x, dtype) for x in self._a], dtype=dtype)
+
+    def mean(self):
+        return self.sum() / len(self._a)
+
+    def fill(self, v):
+        self._a = [v for _ in self._a]
+
+    @property
+    def size(self):
+        return len(self._a)
+
     # -- reductions
     def sum(self):
         s = 0.0
@@ -357,6 +395,25 @@ def histogram(q, bins=10, range=None, weights=None):  # noqa: A002
                 h[i] = h[i] + w
                 break
     return ndarray(h, None), ndarray(edges, None)
+
+
+def bincount(x, weights=None, minlength=0):
+    """numpy semantics for non-negative integer indexes: out[j] = sum of the weights (or the count) of the rows with index j"""
+    idx = x._a if isinstance(x, ndarray) else list(x)
+    ws = (weights._a if isinstance(weights, ndarray) else list(weights)) if weights is not None else None
+    n = minlength
+    for v in idx:
+        if v < 0:
+            raise ValueError("'list' argument must have no negative elements")
+        if v >= n:
+            n = int(v) + 1
+    out = [0.0 if ws is not None else 0] * n
+    for r, v in enumerate(idx):
+        for j in builtins_range(n):
+            if v == j:
+                out[j] = out[j] + (ws[r] if ws is not None else 1)
+                break
+    return ndarray(out, None)
 
 
 # ------------------------------------------------------------------ scalar / small-array helpers used by the view accessors
